@@ -166,6 +166,17 @@ type tPtrs struct { // nil and non-nil plain pointers of every pointee kind
 	PP **[]uint64
 }
 
+type tDeep struct { // lists inside lists inside a struct
+	A []uint64
+	B [][]byte
+	C []interface{}
+	D []tTailInner
+}
+type tTailInner struct {
+	X    []uint64
+	Rest [][]byte `rlp:"tail"`
+}
+
 type tNested2 struct {
 	L [][]byte
 	T tStruct
@@ -278,6 +289,9 @@ var zoo = []struct {
 	{"txdata", func() interface{} { return new(txdataLike) }},
 	{"raw", func() interface{} { return new(rlp.RawValue) }},
 	{"iface", func() interface{} { return new(interface{}) }},
+	{"slice-iface", func() interface{} { return new([]interface{}) }},
+	{"slice3-u64", func() interface{} { return new([][][]uint64) }},
+	{"deep", func() interface{} { return new(tDeep) }},
 }
 
 func safeDecode(b []byte, v interface{}) (err error, panicked interface{}) {
@@ -394,6 +408,12 @@ func main() {
 		b, _ := hex.DecodeString(h)
 		add(b)
 	}
+	// nested lists overrunning their parent by a header's length, then hostile sizes
+	ov := overrunInputs(rng.Fork(), a.Tier == "thorough")
+	for _, b := range ov {
+		add(b)
+	}
+	res.Histogram["inputs-list-overrun"] = len(ov)
 	nTrees := a.N / 6
 	if nTrees < 10 {
 		nTrees = 10
